@@ -2059,6 +2059,7 @@ SPEC_MUTANTS = [
     ("Restore.tla", "Restore_mutant_modefirst.cfg", "Inv_MetadataExact"),
     ("Restore.tla", "Restore_mutant_chownfollows.cfg", "Inv_OutsideUntouched"),
     ("Restore.tla", "Restore_mutant_timesfollow.cfg", "Inv_OutsideUntouched"),
+    ("Restore.tla", "Restore_mutant_emptiness.cfg", "Inv_RefusesNonEmpty"),
 ]
 SPEC_GOOD = [
     ("MC_Interlock.tla", "Interlock_repo.cfg"), ("MC_Interlock.tla", "Interlock_race_repo.cfg"), ("MC_Interlock.tla", "Interlock_gcrace_repo.cfg"),
